@@ -302,6 +302,9 @@ def run_sharded(cmd, scripts, shards=None, timeout=1200, env=None):
     shards = shards or NPROC
     shards = max(1, min(shards, len(scripts)))
     parts = [scripts[i::shards] for i in range(shards)]
+    # every script is bounded by the harness itself (alarm(20) in its forked child), so a shard needs at most that much per script:
+    # the shard limit only guards against a wedged parent process, it must never cut a slow (loaded) machine short
+    timeout = max(timeout, 600 + 21 * max(len(p) for p in parts))
     procs = []
     e = dict(os.environ)
     e.setdefault('ASAN_OPTIONS', 'detect_leaks=1:allocator_may_return_null=1:max_allocation_size_mb=2048')
@@ -345,7 +348,7 @@ def run_harness(name, scripts, args=(), **kw):
     # a script without any output line, or hit by an infrastructure failure (fork EAGAIN, shard timeout on a loaded
     # machine), is run once more, alone: only what the second run says is judged
     again = [(sid, lines) for sid, lines in scripts if lines and (not res.get(sid) or any(l.startswith('!! harness-') for l in res.get(sid, [])))]
-    if again and len(again) <= max(50, len(scripts) // 20):
+    if again:
         res.update(run_sharded([os.path.join(BIN, name)] + list(args), again, shards=min(4, len(again)), **{k: v for k, v in kw.items() if k != 'shards'}))
     return res
 
